@@ -218,36 +218,13 @@ def big_failures(sp, dt, pseed):
                     err = np.linalg.norm((y - ref).astype(np.complex128).ravel())
                     if not err <= 10 * tol(dt) * sc:
                         # relative to the operands (leaf outputs), not to a possibly cancelling sum
-                        sc = max(sc, _operand_scale(sp, x, which == "adj"))
+                        sc = max(sc, LO.tree_opscale_est(sp, dt, pseed) * np.linalg.norm(x.astype(np.complex128).ravel()))
                     if not err <= 10 * tol(dt) * sc:
                         out.append("values" + ("" if which == "fwd" else ":adjoint"))
                         return out
     except Exception as e:
         out.append("apply-raises:%s" % type(e.__cause__ or e).__name__)
     return out
-
-
-def _operand_scale(sp, x, adjoint):
-    """sum over the leaves' output norms along the evaluation (upper bound of the operands' magnitude)."""
-    tot = [0.0]
-
-    def ev(n, v, adj):
-        if n["op"] not in LO.COMBINATORS:
-            y = LO.apply_ref(n, v, adj)
-            tot[0] += float(np.linalg.norm(np.asarray(y, dtype=np.complex128).ravel()))
-            return y
-        return None
-    # cheap bound: evaluate every leaf on an input of the right shape filled from x's norm
-    nx = float(np.linalg.norm(np.asarray(x, dtype=np.complex128).ravel()))
-    for leaf in LO.leaves(sp):
-        try:
-            o, i = LO.shape_of(leaf)
-            shp = o if False else i
-            v = np.full(shp, nx / max(1.0, np.sqrt(A.prod(shp))), dtype=np.asarray(x).dtype)
-            ev(leaf, v, False)
-        except Exception:
-            pass
-    return tot[0]
 
 
 def check_big(case):
